@@ -149,8 +149,9 @@ UNIT = Unit(
                   (r"@after-loop:__src", "", "let ghost la_g = args@;")],
            loop_fn=lambda k, header, kw: ("invariant true,\ndecreases __src@.len()," if "__src.len()" in header else None)),
         Fn(file=L, name="transform_expr", rename="lift_let", ret="r", rules=["attrs", ("strip", "tast::")],
-           cut_from=re.compile(r"MonoExpr::ELet \{\s*name, value, body, \.\.\s*\} => \{"), cut_inside=True, cut_before="@block-end", cut_tail="",
-           sig="fn lift_let(state: &mut State, scope: &mut Scope, name: String, value: Box<MonoExpr>, body: Box<MonoExpr>) -> LiftExpr",
+           cut_from=re.compile(r"MonoExpr::ELet \{\s*name,\s*value,\s*body,\s*(?:\.\.|ty,?)\s*\} => \{"), cut_inside=True, cut_before="@block-end", cut_tail="",
+           # `ty`: the let's PRE-lifting type, which the arm's pattern leaves unbound (`..`) on the pinned tree — a parameter so that code which binds and uses it is verified, not lost
+           sig="fn lift_let(state: &mut State, scope: &mut Scope, name: String, value: Box<MonoExpr>, body: Box<MonoExpr>, ty: Ty) -> LiftExpr",
            pre_rewrites=[
                # `match *value { MonoExpr::EClosure {..} => .., other => .. }`: MonoExpr is opaque here; the case split is a stub, the two branches are the code's
                (re.compile(r"let value = match \*value \{\s*MonoExpr::EClosure \{ params, body, ty \} => \{\s*transform_closure\(state, scope, params, \*body, ty, Some\(name\.clone\(\)\)\)\s*\}\s*other => transform_expr\(state, scope, other\),\s*\};"),
